@@ -1,7 +1,6 @@
 from collections.abc import Callable
 from typing import TypeVar
 
-import reactivex
 from reactivex import Observable, abc
 from reactivex.disposable import Disposable
 
@@ -41,7 +40,12 @@ def using_(
 
             source = observable_factory(resource)
         except Exception as exception:  # pylint: disable=broad-except
-            source = reactivex.throw(exception)
+            # hand the factory's exception to the observer right here (as
+            # defer does): subscribed with the subscribe-time scheduler the
+            # throw() would only be queued, and a notification arriving first
+            # could overtake or even replace it
+            observer.on_error(exception)
+            return disp
 
         try:
             subscription = source.subscribe(observer, scheduler=scheduler)
